@@ -138,7 +138,8 @@ def _gen_cases(rng, tier):
                 if rng.random() < 0.5:
                     h = [[o, c * 2] for o, c in h]
             inf = rng.choice([None, None, 1000])
-            cases.append({"kind": "explode", "h": h, "sub": sub, "lim": lim, "inf": inf})
+            cases.append({"kind": "explode", "h": h, "sub": sub, "lim": lim, "inf": inf,
+                          "src_form": rng.choice(["H", "H", "H", "dict", "pairs", "pairs_iter", "generator", "zip", "P"])})
         elif r < 8:
             table = []
             for f in faces:
@@ -182,7 +183,12 @@ def impl_run(case):
                 kw["predicate"] = lambda r: r.outcome in sub
             if case["inf"] is not None:
                 kw["inf"] = case["inf"]
-            r = explode(h, limit=ec.py_limit(case["lim"]), **kw)
+            d = dict(h.items())
+            form = case.get("src_form", "H")
+            src = {"H": h, "dict": d, "pairs": list(d.items()), "pairs_iter": iter(list(d.items())),
+                   "generator": ((o, c) for o, c in list(d.items())), "zip": zip(list(d), list(d.values())),
+                   "P": P(h) if h.total else h}[form]
+            r = explode(src, limit=ec.py_limit(case["lim"]), **kw)
         elif k == "substitute":
             tbl = {Fraction(*f): t for f, t in case["table"]}
 
